@@ -466,6 +466,24 @@ func c12RunAttempt(e *Env, family string, st c12Store, at c12Attempt, omitProg, 
 			at.desc, st.String(), probeAt, name, left)
 		return false
 	}
+	// (1b) the store itself is unlocked: a registration (what a program load does), a lookup and a
+	// removal complete. The probe metric is hidden and removed again, so the next export is unchanged.
+	regDone := false
+	e.S.Go("probe-register", func() {
+		pm := metrics.NewMetric("c12_probe_registration", "c12probe", metrics.Counter, metrics.Int)
+		pm.Hidden = true
+		if err := store.Add(pm); err == nil {
+			store.FindMetricOrNil("c12_probe_registration", "c12probe")
+			store.Remove(pm)
+		}
+		regDone = true
+	})
+	e.S.Run(400000)
+	if !regDone {
+		e.Fail(cls("store-left-locked"), "%s on store [%s]: afterwards registering a metric (what a program load does) blocks forever: the store was left locked; live: %s",
+			at.desc, st.String(), liveString(e))
+		return false
+	}
 	if len(left) > 0 {
 		e.Fail(cls("helper-goroutine-blocked"), "%s on store [%s]: goroutines started by the attempt are still blocked: %v", at.desc, st.String(), left)
 		return false
